@@ -63,6 +63,11 @@ class T:
         return self is o
 
 
+
+class NotScalar(TypeError):
+    """a value of the symbolic executor (array, table, object, list) reached a place that models scalars only: the construct is
+    outside the modelled subset - never an error of the code under contract and never a verdict"""
+
 def mk(op, args, sort):
     key = (op, args, sort)
     t = _table.get(key)
@@ -88,7 +93,7 @@ def const(v, sort=None):
         if sort is None:
             sort = I if v.denominator == 1 else R
         return mk("const", (v,), sort)
-    raise TypeError(v)
+    raise NotScalar(v)
 
 
 def rconst(v):
